@@ -56,6 +56,11 @@ fn lower_helper(session: &Session, grammar: pt::Grammar, validate: bool) -> Norm
         "Conditional compilation",
         cond_comp::remove_disabled_decls(session, grammar)?
     );
+    // Removing disabled alternatives can change what the later passes rely on (e.g. which
+    // precedence level is the first one), so validate what is left as well.
+    if validate {
+        prevalidate::validate(&grammar)?;
+    }
     let grammar = profile!(session, "Grammar resolution", resolve::resolve(grammar)?);
     let grammar = profile!(
         session,
